@@ -292,10 +292,53 @@ func genC01(r *rng, n int) {
 				run(q)
 			}
 		}
+		// raw keys that are NOT a complete key encoding but relate to a real entry's bytes: a proper prefix of the key (cut key,
+		// empty), the key followed by the first bytes of its value (a prefix of the ENTRY), the key plus foreign bytes: absent
+		binKeyProbes := func(p []Step) {
+			last := p[len(p)-1]
+			if last.Kind < 3 || last.Kind > 5 || !r.chance(35) {
+				return
+			}
+			pv := val.at(p[:len(p)-1])
+			ev := val.at(p)
+			if pv == nil || ev == nil || pv.T.K != thrift.MAP {
+				return
+			}
+			var kb []byte
+			for i, k := range pv.Keys {
+				if pv.Elems[i] == ev {
+					kb = k.encode(nil)
+				}
+			}
+			if kb == nil {
+				return
+			}
+			vb := ev.encode(nil)
+			cut := func(b []byte, n int) []byte {
+				if n > len(b) {
+					n = len(b)
+				}
+				return append([]byte(nil), b[:n]...)
+			}
+			vars := [][]byte{{}, cut(kb, len(kb)/2), cut(kb, len(kb)-1), append(cut(kb, len(kb)), cut(vb, 1)...),
+				append(cut(kb, len(kb)), cut(vb, 1+r.intn(4))...), append(cut(kb, len(kb)), vb...), append(cut(kb, len(kb)), 0x7f)}
+			for _, raw := range vars {
+				if string(raw) == string(kb) || !r.chance(45) {
+					continue
+				}
+				q := append([]Step(nil), p...)
+				q[len(q)-1] = Step{Kind: 5, B: raw}
+				run(q)
+				if r.chance(30) {
+					run(append(q, Step{Kind: 1, N: 1}))
+				}
+			}
+		}
 		for _, p := range paths {
 			run(p)
 			if len(p) > 0 {
 				intKeyProbes(p)
+				binKeyProbes(p)
 			}
 			// invalid variants: perturb the last step / append a bad step
 			if r.chance(40) {
